@@ -174,8 +174,26 @@ func (lc *limCtx) checkedOnAllPaths(v ssa.Value, b *ssa.BasicBlock) bool {
 
 // bounded: the value is a limit, or checked against one at block b.
 func (lc *limCtx) bounded(v ssa.Value, b *ssa.BasicBlock) bool {
+	return lc.boundedD(v, b, 0)
+}
+
+func (lc *limCtx) boundedD(v ssa.Value, b *ssa.BasicBlock, depth int) bool {
 	if lc.isLimit(v) || lc.checkedAt(v, b) {
 		return true
+	}
+	// a value joined from several branches: each incoming value bounded where it comes from
+	// (the comparison that bounds one arm holds on that arm only)
+	if ph, ok := strip(v).(*ssa.Phi); ok && depth < 3 {
+		all := len(ph.Edges) > 0
+		for i, e := range ph.Edges {
+			if i >= len(ph.Block().Preds) || !lc.boundedD(e, ph.Block().Preds[i], depth+1) {
+				all = false
+				break
+			}
+		}
+		if all {
+			return true
+		}
 	}
 	// every origin individually bounded (phis)
 	ls := Origins(v)
